@@ -1,8 +1,6 @@
 (* C06 - the 32-byte storage format is lossless, canonical and strictly validated. *)
 From PS Require Import Base PackDefs StoreDefs ApiDefs SpecDefs SpecApi PackProofs PackTheorems StoreProofs ApiLemmas
   RefineProofs ApiTheorems.
-From PS Require Import CTieStore.
-From PS.Gen Require CFuns.
 From PS.Gen Require Import Consts Langs.
 Local Open Scope N_scope.
 
